@@ -686,3 +686,18 @@ with canon_alt (val : bool) (c : N) (al : alts) (v : value) {struct al} : value 
   | ANil => v
   | ACons c' s r => if c =? c' then canon val s v else canon_alt val c r v
   end.
+
+(* ---------- a session on one API: a history of calls ----------
+   The model of a call is a function of (mode, schema, input) alone: an API whose registered settings objects are not
+   mutated by use answers every call the same way whatever was called before. The correspondence replays histories on one
+   serix.API with settings objects shared between types and compares every answer with [run_call]. *)
+Inductive call :=
+| CallEnc (val : bool) (s : schema) (v : value)
+| CallDec (val : bool) (s : schema) (b : bytes).
+Inductive outcome := OutEnc (r : res bytes) | OutDec (r : res (value * nat)).
+Definition run_call (c : call) : outcome :=
+  match c with
+  | CallEnc val s v => OutEnc (Encode val s v)
+  | CallDec val s b => OutDec (Decode val s b)
+  end.
+Definition run_history (h : list call) : list outcome := map run_call h.
